@@ -134,6 +134,10 @@ type Term struct {
 	size int
 	Coefs []*big.Int // OLin
 	K0    *big.Int   // OLin
+	kz, ko uint64 // known-zero / known-one bits (known.go)
+	kbDone bool
+	bits   []bitD // bit provenance (bitprov.go), nil = opaque
+	canon  *Term  // smaller equal term found by canonBits
 }
 
 func (t *Term) IsConst() bool { return t.Op == OConst }
@@ -230,6 +234,7 @@ type Ctx struct {
 	nextID int
 	Vars   []*Term
 	Terms  int
+	inCanon int
 }
 
 func NewCtx() *Ctx { return &Ctx{tab: map[string]*Term{}} }
@@ -343,7 +348,22 @@ func (c *Ctx) mkI(op Op, s Sort, lo, hi *big.Int, args ...*Term) *Term {
 		lo, hi = tl, th
 	}
 	t.Lo, t.Hi = lo, hi
-	return c.intern(t)
+	x := c.intern(t)
+	if x != t {
+		if x.canon != nil && c.inCanon == 0 {
+			return x.canon
+		}
+		return x
+	}
+	t.computeBits()
+	t.refineInterval()
+	if c.inCanon == 0 {
+		if y := c.canonBits(t); y != nil && y != t {
+			t.canon = y
+			return y
+		}
+	}
+	return t
 }
 
 func fits(s Sort, lo, hi *big.Int) bool {
@@ -526,6 +546,11 @@ func (c *Ctx) Bin(op Op, a, b *Term) *Term {
 			if b.K == 0 {
 				return a
 			}
+			if op == OOr {
+				if _, ko := a.knownBits(); b.K&^ko == 0 {
+					return a
+				}
+			}
 		case OMul:
 			if b.K == 0 {
 				return b
@@ -543,6 +568,17 @@ func (c *Ctx) Bin(op Op, a, b *Term) *Term {
 			// mask that covers the whole interval
 			if a.Lo.Sign() >= 0 && isLowMask(b.K) && a.Hi.Cmp(new(big.Int).SetUint64(b.K)) <= 0 {
 				return a
+			}
+			{
+				kz, ko := a.knownBits()
+				if b.K&^(kz|ko) == 0 {
+					// every selected bit is known
+					return c.Const(s, ko&b.K)
+				}
+				if (^kz&m)&^b.K == 0 {
+					// the mask keeps every bit that can be set
+					return a
+				}
 			}
 		case OQuo:
 			if b.K == 1 {
@@ -574,6 +610,43 @@ func (c *Ctx) Bin(op Op, a, b *Term) *Term {
 			return c.Const(s, 0)
 		case OAnd, OOr:
 			return a
+		}
+	}
+	// xor with constants: (x^c1)^c2 == x^(c1^c2), (x^c1)^(x^c2) == c1^c2
+	if op == OXor {
+		split := func(t *Term) (*Term, uint64) {
+			if t.Op == OXor && len(t.Args) == 2 && t.Args[1].IsConst() {
+				return t.Args[0], t.Args[1].K
+			}
+			return t, 0
+		}
+		if b.IsConst() {
+			if xa, ca := split(a); ca != 0 {
+				return c.Bin(OXor, xa, c.Const(s, (ca^b.K)&m))
+			}
+		} else {
+			xa, ca := split(a)
+			xb, cb := split(b)
+			if xa == xb && (ca != 0 || cb != 0) {
+				return c.Const(s, (ca^cb)&m)
+			}
+			// x ^ (y ^ x) == y
+			if a.Op == OXor && len(a.Args) == 2 {
+				if a.Args[0] == b {
+					return a.Args[1]
+				}
+				if a.Args[1] == b {
+					return a.Args[0]
+				}
+			}
+			if b.Op == OXor && len(b.Args) == 2 {
+				if b.Args[0] == a {
+					return b.Args[1]
+				}
+				if b.Args[1] == a {
+					return b.Args[0]
+				}
+			}
 		}
 	}
 	// (x + k1) - (x + k2) == k1 - k2 for exact linear forms
@@ -891,6 +964,16 @@ func (c *Ctx) Cmp(op Op, a, b *Term) *Term {
 		if a.IsConst() {
 			a, b = b, a
 		}
+		{
+			az, ao := a.knownBits()
+			bz, bo := b.knownBits()
+			if ao&bz != 0 || az&bo != 0 {
+				return c.BoolC(false)
+			}
+			if eq, ok := bitsDecideEq(a, b); ok {
+				return c.BoolC(eq)
+			}
+		}
 		// ite(g, c1, c2) == c3
 		if a.Op == OIte && b.IsConst() && a.Args[1].IsConst() && a.Args[2].IsConst() {
 			return c.Ite(a.Args[0], c.BoolC(a.Args[1].K == b.K), c.BoolC(a.Args[2].K == b.K))
@@ -1036,6 +1119,15 @@ func (c *Ctx) FCmp(op Op, a, b *Term) *Term {
 			return c.BoolC(x <= y)
 		}
 	}
+	// comparisons against the largest finite values are tests for an infinity: decide them on the bits
+	if op == OFLt && a.Sort.K == KF64 {
+		if a.IsConst() && a.K == math.Float64bits(math.MaxFloat64) && b.Op == OFFromBits {
+			return c.Cmp(OEq, b.Args[0], c.Const(U64, 0x7FF0000000000000))
+		}
+		if b.IsConst() && b.K == math.Float64bits(-math.MaxFloat64) && a.Op == OFFromBits {
+			return c.Cmp(OEq, a.Args[0], c.Const(U64, 0xFFF0000000000000))
+		}
+	}
 	return c.mk(op, Bool, a, b)
 }
 func (c *Ctx) FNeg(a *Term) *Term {
@@ -1050,6 +1142,12 @@ func (c *Ctx) FNeg(a *Term) *Term {
 func (c *Ctx) FIsNaN(a *Term) *Term {
 	if a.IsConst() {
 		return c.BoolC(math.IsNaN(a.Float()))
+	}
+	if a.Op == OFFromBits && a.Sort.K == KF64 {
+		x := a.Args[0]
+		exp := c.Cmp(OEq, c.Bin(OAnd, x, c.Const(U64, 0x7FF0000000000000)), c.Const(U64, 0x7FF0000000000000))
+		man := c.Not(c.Cmp(OEq, c.Bin(OAnd, x, c.Const(U64, 0x000FFFFFFFFFFFFF)), c.Const(U64, 0)))
+		return c.And(exp, man)
 	}
 	return c.mk(OFIsNaN, Bool, a)
 }
